@@ -284,9 +284,11 @@ def conflict_cost(out, h, tier):
     fam = [("ladder2", [("ladder(2,%d)" % d, sl.ladder(2, d)) for d in (range(2, 15) if quick else range(2, 18))]),
            ("ladder3", [("ladder(3,%d)" % d, sl.ladder(3, d)) for d in (range(2, 8) if quick else range(2, 11))]),
            ("dense", [("dense(%d)" % n, sl.dense(n)) for n in ((6, 10, 14, 18) if quick else (6, 10, 14, 18, 24, 30))]),
-           ("chain", [("chain(%d)" % n, sl.chain(n)) for n in (10, 26, 40)])]
+           ("chain", [("chain(%d)" % n, sl.chain(n)) for n in (10, 26, 40)]),
+           # beyond any fixed-size memo table an implementation might use: several hundred nodes
+           ("large", [("ladder(2,150)", sl.ladder(2, 150)), ("ladder(2,300)", sl.ladder(2, 300)), ("chain(600)", sl.chain(600))])]
     table = []
-    for name_f, gs, cmd in [(n, g, c) for n, g in fam for c in ("conflicts", "conflicts-ends")]:
+    for name_f, gs, cmd in [(n, g, c) for n, g in fam for c in (("conflicts-ends",) if n == "large" else ("conflicts", "conflicts-ends"))]:
         lines = ["%s\t%s" % (cmd, sl.graphspec(g)) for _, g in gs]
         res, timed_out, secs = run_family(h, lines, timeout=20 if quick else 120)
         gs = [("%s[%s]" % (name, "every 2nd node has outputs" if cmd == "conflicts" else "only bottom and top have outputs"), g) for name, g in gs]
